@@ -1998,7 +1998,7 @@ struct TemplateCore {
         while (offset < end_offset) {
             switch (content[offset]) {
                 case QOperationSymbol::OrExp: { // ||
-                    if (content[(offset + 1)] == QOperationSymbol::OrExp) {
+                    if (((offset + 1) < end_offset) && (content[(offset + 1)] == QOperationSymbol::OrExp)) {
                         return QOperation::Or;
                     }
 
@@ -2006,7 +2006,7 @@ struct TemplateCore {
                 }
 
                 case QOperationSymbol::AndExp: { // &&
-                    if (content[(offset + 1)] == QOperationSymbol::AndExp) {
+                    if (((offset + 1) < end_offset) && (content[(offset + 1)] == QOperationSymbol::AndExp)) {
                         return QOperation::And;
                     }
 
@@ -2014,7 +2014,7 @@ struct TemplateCore {
                 }
 
                 case QOperationSymbol::GreaterExp: { // > or >=
-                    if (content[(offset + 1)] == QOperationSymbol::EqualExp) {
+                    if (((offset + 1) < end_offset) && (content[(offset + 1)] == QOperationSymbol::EqualExp)) {
                         return QOperation::GreaterOrEqual;
                     }
 
@@ -2022,7 +2022,7 @@ struct TemplateCore {
                 }
 
                 case QOperationSymbol::LessExp: { // < or <=
-                    if (content[(offset + 1)] == QOperationSymbol::EqualExp) {
+                    if (((offset + 1) < end_offset) && (content[(offset + 1)] == QOperationSymbol::EqualExp)) {
                         return QOperation::LessOrEqual;
                     }
 
@@ -2030,7 +2030,7 @@ struct TemplateCore {
                 }
 
                 case QOperationSymbol::NotExp: { // !=
-                    if (content[(offset + 1)] == QOperationSymbol::EqualExp) {
+                    if (((offset + 1) < end_offset) && (content[(offset + 1)] == QOperationSymbol::EqualExp)) {
                         return QOperation::NotEqual;
                     }
 
@@ -2038,7 +2038,7 @@ struct TemplateCore {
                 }
 
                 case QOperationSymbol::EqualExp: { // ==
-                    if (content[(offset + 1)] == QOperationSymbol::EqualExp) {
+                    if (((offset + 1) < end_offset) && (content[(offset + 1)] == QOperationSymbol::EqualExp)) {
                         return QOperation::Equal;
                     }
 
